@@ -166,3 +166,134 @@ Example c16_nonvacuous :
   g_rec (run c16_cfg (h1 ++ EvInStop :: h2)) = [[LT 2; LT 3]; [LT 0; LT 1]] /\
   option_map c_out (find_sub (run c16_cfg (h1 ++ EvInStop :: h2)) 1) = Some [LT 2; LT 3].
 Proof. vm_compute. repeat split; reflexivity. Qed.
+
+(* ===================================================================================================== *)
+(* Extension E3: "a stream with no sessions left is eventually removed, an input that stops sending is
+   disconnected by the idle check" at the level of the SERVER: ServerManager's tick over all groups,
+   with the liveness sweep (Group/GroupServerTick.v over the admission machine of C03 / C17).
+   Keep this block at the END of the file.  From here on [step], [run], [sess] ... are those of
+   Group.GroupAdmission (they shadow the fan-out model's). *)
+From Coq Require Import ZArith List Bool.
+From Lal Require Import Group.GroupAdmission Group.GroupAdmissionProofs Group.GroupInvariantProofs
+  Group.GroupServerTick Group.GroupServerTickProofs.
+From Lal Require Group.GroupServerKeysProofs.
+Import ListNotations.
+
+(* Removal of groups, over every history: at every tick of a running server - whatever its count - the
+   groups that disappear are exactly those with no input, no output session and no relay pull pending
+   (Group.IsInactive = group_inactive of c16_group_reaped). *)
+Theorem c16_group_reaped_history : forall cf h c s,
+  let ts := fst (trun fixed_tree cf tinit h) in
+  st_disposed (t_st ts) = false ->
+  get_group (t_st (fst (fst (tstep fixed_tree cf ts (TEv (ETick c)))))) s = None <->
+  (get_group (t_st ts) s = None \/
+   exists g, get_group (t_st ts) s = Some g /\
+             has_in g = false /\ has_out g = false /\ pull_alive g (st_now (t_st ts)) = false).
+Proof.
+  intros cf h c s ts Hd.
+  rewrite (tick_removes_inactive fixed_tree cf ts c s (inv_keys _ _ (trun_inv_s cf h)) Hd).
+  split; (intros [H|[g [Hg Hi]]]; [left; exact H|right; exists g; split; [exact Hg|]]).
+  - rewrite inactive_is_group_inactive in Hi. apply group_inactive_iff in Hi. exact Hi.
+  - rewrite inactive_is_group_inactive. apply group_inactive_iff. exact Hi.
+Qed.
+Print Assumptions c16_group_reaped_history.
+
+(* A removed name can be reused and starts clean: the next session that asks for the group of a name
+   that has none (getOrCreateGroup) gets a new Group object - the next identity - in the initial state:
+   no input, no subscribers, no pipeline, relay pull / push as configured. *)
+Theorem c16_removed_name_fresh : forall cf st s, get_group st s = None ->
+  let g := new_group cf (st_gid st + 1) (st_now st) in
+  snd (get_or_create cf st s) = g /\ get_group (fst (get_or_create cf st s)) s = Some g /\
+  has_in g = false /\ g_subs g = [] /\ g_pipe g = None /\ has_out g = false /\ g_disposed g = false.
+Proof.
+  intros cf st s H g. rewrite (removed_name_fresh cf st s H). cbn [fst snd]. split; [reflexivity|]. split.
+  - unfold get_group. cbn. apply lookup_update_same.
+  - subst g. unfold has_out, has_sub, has_push, new_group. cbn. repeat split; try reflexivity.
+    induction (cf_npush cf); [reflexivity|assumption].
+Qed.
+Print Assumptions c16_removed_name_fresh.
+
+(* The idle check, over every history: for every history h1, a sweep tick c1, every history h2 without
+   a sweep tick, and a sweep tick c2 - if session n is the accepted RTMP / RTSP publisher of stream s at
+   both sweeps and its connection has read nothing in between (its read counter is where the first
+   sweep saw it), the second sweep disconnects it; nothing else happens to it: it stays the accepted
+   input of s until its shell reports the end, and the tick emits no notification about it.  Its stop
+   notification is the one its departure produces - exactly one (c03_srv_notifications: the
+   notifications of n are [start] until it has gone and [start; stop] afterwards, over all histories). *)
+Theorem c16_idle_input_dropped_history : forall cf h1 c1 h2 c2 s n,
+  let ts0 := fst (trun fixed_tree cf tinit h1) in
+  let ts1 := fst (trun fixed_tree cf tinit (h1 ++ [TEv (ETick c1)])) in
+  let ts2 := fst (trun fixed_tree cf tinit (h1 ++ [TEv (ETick c1)] ++ h2)) in
+  c1 mod sweep_interval = 0 -> c2 mod sweep_interval = 0 -> Forall no_sweep_ev h2 ->
+  st_disposed (t_st ts0) = false -> st_disposed (t_st ts2) = false ->
+  accepted_pub (t_st ts0) s n -> accepted_pub (t_st ts2) s n ->
+  c_r (get_ctr (CConn n) (t_ctr ts2)) = c_r (get_ctr (CConn n) (t_ctr ts1)) ->
+  let r := tstep fixed_tree cf ts2 (TEv (ETick c2)) in
+  (exists x, find_sess n (st_sess (t_st (fst (fst r)))) = Some x /\ s_closed x = true) /\
+  accepted_pub (t_st (fst (fst r))) s n /\
+  word (snd r) (WConn n) = [].
+Proof. exact idle_input_dropped_history. Qed.
+Print Assumptions c16_idle_input_dropped_history.
+
+(* ... in any state of the invariant: a publisher whose stale stat equals its read counter is closed by
+   the next sweep, and the input side of its group (slots, pipeline, Group object) stays as it was *)
+Theorem c16_idle_input_only_closed : forall cf h c s g n,
+  let ts := fst (trun fixed_tree cf tinit h) in
+  st_disposed (t_st ts) = false -> c mod sweep_interval = 0 ->
+  get_group (t_st ts) s = Some g -> (g_rtmp g = Some n \/ g_rtsp g = Some n) ->
+  read_idle (get_ctr (CConn n) (t_ctr ts)) ->
+  let r := tstep fixed_tree cf ts (TEv (ETick c)) in
+  (exists x, find_sess n (st_sess (t_st (fst (fst r)))) = Some x /\ s_closed x = true) /\
+  keeps s g (t_st (fst (fst r))) /\ word (snd r) (WConn n) = [].
+Proof. intros cf h c s g n ts. exact (idle_publisher_closed cf ts _ c s g n (trun_inv_s cf h)). Qed.
+Print Assumptions c16_idle_input_only_closed.
+
+(* the verdict of one look (byte counters < 2^64): never at the first look; afterwards a publisher or
+   relay pull is condemned iff its read counter is where the previous look saw it, a subscriber or
+   relay-push session iff its write counter is *)
+Theorem c16_idle_verdict : forall kd c,
+  (stale_of c = None -> fst (look kd c) = false) /\
+  (forall r0 w0, stale_of c = Some (r0, w0) -> ctr_bounded c ->
+     (judged_read kd = true -> fst (look kd c) = (c_r c =? r0)) /\
+     (judged_write kd = true -> fst (look kd c) = (c_w c =? w0))).
+Proof.
+  intros kd c. split; [apply look_first|]. intros r0 w0 Hs Hb. split; intro Hk;
+    [eapply look_read|eapply look_write]; eassumption.
+Qed.
+Print Assumptions c16_idle_verdict.
+
+(* No event other than a tick removes a group or replaces the Group object of a name (all events of
+   the server: arrivals, departures, kicks, relay outcomes, API calls, dispose, media, byte counters). *)
+Theorem c16_only_ticks_remove : forall cf ts te s g,
+  (forall c, te <> TEv (ETick c)) -> get_group (t_st ts) s = Some g ->
+  exists g', get_group (t_st (fst (fst (tstep fixed_tree cf ts te)))) s = Some g' /\ g_id g' = g_id g.
+Proof.
+  intros cf ts te s g Hnt Hg. destruct te as [e0|n k|s0 i k].
+  - assert (H0 : forall c, e0 <> ETick c) by (intros c Hc; apply (Hnt c); rewrite Hc; reflexivity).
+    rewrite (tstep_TEv_state fixed_tree cf ts e0 H0). apply GroupServerKeysProofs.only_ticks_remove; assumption.
+  - destruct (bytes_keep_state fixed_tree cf ts n k) as [E _]. rewrite E. exists g. split; [exact Hg|reflexivity].
+  - destruct (att_bytes_keep_state fixed_tree cf ts s0 i k) as [E _]. rewrite E. exists g. split; [exact Hg|reflexivity].
+Qed.
+Print Assumptions c16_only_ticks_remove.
+
+(* ... and the identity of the Group a removed (or new) name gets - the next one, c16_removed_name_fresh -
+   is larger than the identity of every Group registered after any history: a new Group object. *)
+Theorem c16_new_group_identity_fresh : forall cf h s g,
+  let st := t_st (fst (trun fixed_tree cf tinit h)) in
+  get_group st s = Some g -> g_id g < st_gid st + 1.
+Proof. intros cf h s g st. exact (GroupServerKeysProofs.new_group_identity_fresh fixed_tree cf st s g (trun_reachable cf h)). Qed.
+Print Assumptions c16_new_group_identity_fresh.
+
+(* non-vacuity: a publisher attaches and sends nothing for two sweeps: disconnected at the second one,
+   one stop when its shell reports, the group removed at the following tick, and the next publisher of
+   the name gets a new Group (identity 2) and a new pipeline *)
+Example c16_srv_nonvacuous :
+  let h1 := [TEv (ERtmpPub 1 1 false); TEv (ETick 120); TEv (ETick 239); TEv (ETick 240)] in
+  let h2 := h1 ++ [TEv (EGone 1); TEv (ETick 241)] in
+  let h3 := h2 ++ [TEv (ERtmpPub 1 2 false)] in
+  closed_waiting (t_st (fst (trun fixed_tree (mk_config false 0) tinit h1))) = [1] /\
+  map n_kind (snd (trun fixed_tree (mk_config false 0) tinit h2)) = [NPubStart; NPubStop] /\
+  get_group (t_st (fst (trun fixed_tree (mk_config false 0) tinit h2))) 1 = None /\
+  option_map (fun g => (g_id g, g_rtmp g, g_pipe g)) (get_group (t_st (fst (trun fixed_tree (mk_config false 0) tinit h3))) 1)
+    = Some (2, Some 2, Some 2).
+Proof. vm_compute. repeat split; reflexivity. Qed.
